@@ -31,7 +31,7 @@ func c09Msg(id uint64, size int, squeeze bool) *gen.Msg {
 }
 
 func c09(run *ev.Run) int {
-	run.SetRule("limit cases = N in {2,10,100,1000,65536,131072} (thorough: 13 values from 1 to 1 MiB; plus limits at the top of the integer range, under which everything must be delivered) x encoded size in {N-1,N,N+1,10N} (exact, proto codec; JSON sampled) x {identity, gzip} x position {first,middle,last} of a 3-message stream (or the single unary message) x 3 protocols x 4 kinds x {handler-side limit, client-side limit}; hostile cases = lying prefixes (2^32-1, 2^31, N+1 declared with 3 bytes present; <=N declared with fewer present), 32 MiB envelopes with reserved flags, 64/256 MiB gzip bombs and 6-byte bombs of a registered run-length algorithm (as data messages, as compressed Connect end-of-stream messages and gRPC-Web trailer frames, as error bodies of non-200 responses to unary and streaming calls), valid small bodies under a Content-Length unrelated to them (2^62 ... unknown), each measured alone on one goroutine with runtime.MemStats.TotalAlloc; also truthfully declared Content-Length with a well-compressed message within / above the limit; history: one WithCompression value shared by handlers with limits 64 / 4 KiB / 256 MiB; oracle: delivered <=> encoded size <= N (wire and decompressed; raw<=N<wire is either), failing call has invalid_argument/resource_exhausted, earlier messages delivered and none after, allocation for one message <= 16N + slack; distinct by (N, size class, compression class, position, protocol, kind, side)")
+	run.SetRule("limit cases = N in {2,10,100,1000,65536,131072} (thorough: 13 values from 1 to 1 MiB; plus limits at the top of the integer range, under which everything must be delivered) x encoded size in {N-1,N,N+1,10N} (exact, proto codec; JSON sampled) x {identity, gzip} x position {first,middle,last} of a 3-message stream (or the single unary message) x 3 protocols x 4 kinds x {handler-side limit, client-side limit}; hostile cases = lying prefixes (2^32-1, 2^31, N+1 declared with 3 bytes present; <=N declared with fewer present), 32 MiB envelopes with reserved flags, 64/256 MiB gzip bombs and 6-byte bombs of a registered run-length algorithm, with and without io.WriterTo on its decompressor (as data messages, as compressed Connect end-of-stream messages and gRPC-Web trailer frames, as error bodies of non-200 responses to unary and streaming calls), valid small bodies under a Content-Length unrelated to them (2^62 ... unknown), each measured alone on one goroutine with runtime.MemStats.TotalAlloc; also truthfully declared Content-Length with a well-compressed message within / above the limit; history: one WithCompression value shared by handlers with limits 64 / 4 KiB / 256 MiB; oracle: delivered <=> encoded size <= N (wire and decompressed; raw<=N<wire is either), failing call has invalid_argument/resource_exhausted, earlier messages delivered and none after, allocation for one message <= 16N + slack; distinct by (N, size class, compression class, position, protocol, kind, side)")
 	Ns := []int{2, 10, 100, 1000, 65536, 131072}
 	if !run.Quick() {
 		Ns = []int{1, 2, 3, 10, 50, 100, 500, 1000, 4096, 65535, 65536, 131072, 1 << 20}
@@ -409,39 +409,47 @@ func c09Hostile(run *ev.Run) {
 	// few bytes into as much as it says. The limit on the decompressed size (and
 	// the allocation bound) holds for whatever algorithm the application plugs in.
 	if !run.Replaying() || strings.Contains(run.ReplayKey(), "/rle-bomb/") {
-		rleD := func() connect.Decompressor { return &rleDecompressor{} }
 		rleC := func() connect.Compressor { return &rleCompressor{} }
-		for _, protocol := range svc.Protocols {
-			for _, total := range []uint32{N + 1, 64 << 20} {
-				key := fmt.Sprintf("c09/hostile/rle-bomb/handler/%s/inflates-to=%d", protocol, total)
-				if !run.Want(key) {
-					continue
-				}
-				bomb := []byte{'Z', byte(total >> 24), byte(total >> 16), byte(total >> 8), byte(total), 0}
-				reg := svc.NewRegistry()
-				reg.Default = drainProgram()
-				hs := svc.Handlers(reg, connect.WithReadMaxBytes(N), connect.WithCompression("zz-rle", rleD, rleC), connect.WithCompressMinBytes(1<<30)) // (responses stay uncompressed: the reference decoder does not know zz-rle)
-				kind := svc.ClientStream
-				ct := contentType(protocol, "proto", kind)
-				encH, _ := encHeaders(protocol, kind)
-				hdr := http.Header{"Content-Type": {ct}}
-				hdr.Set(encH, "zz-rle")
-				body := frame(1, uint32(len(bomb)), bomb)
-				var res *wire.Result
-				delta := measure(func() {
-					rw := wire.NewRecorder()
-					hs[kind].ServeHTTP(rw, wire.ServerRequest(context.Background(), "POST", kind.Path(), hdr, &wire.ScriptedBody{Data: body}, 2))
-					res = rw.Finish()
-				})
-				run.Count("alloc.measured", 1)
-				run.Eval(fmt.Sprintf("hostile|handler|%s|rle-bomb|%d", protocol, total))
-				d := refcodec.DecodeResponse(protocol, true, res.Status, res.Header, res.Body, res.Trailer, svc.RefAlgos())
-				detail := map[string]any{"protocol": protocol, "wire_bytes": len(bomb), "inflates_to": total, "N": N, "allocated": delta, "bound": bound}
-				if delta > bound {
-					run.Violation(key+"/allocation", fmt.Sprintf("a %d-byte message of a run-length algorithm that inflates to %d bytes made the handler allocate %d bytes with a read limit of %d (bound %d)", len(bomb), total, delta, N, bound), detail)
-				}
-				if d.Err == nil {
-					run.Violation(key+"/accepted", fmt.Sprintf("a message that decompresses to %d bytes was accepted under a read limit of %d", total, N), detail)
+		for _, variant := range []string{"", "/decompressor-with-WriteTo"} {
+			rleD := func() connect.Decompressor { return &rleDecompressor{} }
+			if variant != "" {
+				// the same algorithm whose decompressor also offers io.WriterTo (as
+				// streaming decoders such as zstd's do): an optional fast path must
+				// stay under the same limit
+				rleD = func() connect.Decompressor { return &rleWriterToDecompressor{} }
+			}
+			for _, protocol := range svc.Protocols {
+				for _, total := range []uint32{N + 1, 64 << 20} {
+					key := fmt.Sprintf("c09/hostile/rle-bomb/handler/%s/inflates-to=%d%s", protocol, total, variant)
+					if !run.Want(key) {
+						continue
+					}
+					bomb := []byte{'Z', byte(total >> 24), byte(total >> 16), byte(total >> 8), byte(total), 0}
+					reg := svc.NewRegistry()
+					reg.Default = drainProgram()
+					hs := svc.Handlers(reg, connect.WithReadMaxBytes(N), connect.WithCompression("zz-rle", rleD, rleC), connect.WithCompressMinBytes(1<<30)) // (responses stay uncompressed: the reference decoder does not know zz-rle)
+					kind := svc.ClientStream
+					ct := contentType(protocol, "proto", kind)
+					encH, _ := encHeaders(protocol, kind)
+					hdr := http.Header{"Content-Type": {ct}}
+					hdr.Set(encH, "zz-rle")
+					body := frame(1, uint32(len(bomb)), bomb)
+					var res *wire.Result
+					delta := measure(func() {
+						rw := wire.NewRecorder()
+						hs[kind].ServeHTTP(rw, wire.ServerRequest(context.Background(), "POST", kind.Path(), hdr, &wire.ScriptedBody{Data: body}, 2))
+						res = rw.Finish()
+					})
+					run.Count("alloc.measured", 1)
+					run.Eval(fmt.Sprintf("hostile|handler|%s|rle-bomb|%d", protocol, total))
+					d := refcodec.DecodeResponse(protocol, true, res.Status, res.Header, res.Body, res.Trailer, svc.RefAlgos())
+					detail := map[string]any{"protocol": protocol, "wire_bytes": len(bomb), "inflates_to": total, "N": N, "allocated": delta, "bound": bound}
+					if delta > bound {
+						run.Violation(key+"/allocation", fmt.Sprintf("a %d-byte message of a run-length algorithm that inflates to %d bytes made the handler allocate %d bytes with a read limit of %d (bound %d)", len(bomb), total, delta, N, bound), detail)
+					}
+					if d.Err == nil {
+						run.Violation(key+"/accepted", fmt.Sprintf("a message that decompresses to %d bytes was accepted under a read limit of %d", total, N), detail)
+					}
 				}
 			}
 		}
@@ -649,6 +657,31 @@ func (d *rleDecompressor) Read(p []byte) (int, error) {
 }
 
 func (d *rleDecompressor) Close() error { return nil }
+
+// rleWriterToDecompressor additionally implements io.WriterTo, handing
+// everything it has to the sink in 32 KiB pieces.
+type rleWriterToDecompressor struct{ rleDecompressor }
+
+func (d *rleWriterToDecompressor) WriteTo(w io.Writer) (int64, error) {
+	var total int64
+	buf := make([]byte, 32<<10)
+	for {
+		n, err := d.Read(buf)
+		if n > 0 {
+			m, werr := w.Write(buf[:n])
+			total += int64(m)
+			if werr != nil {
+				return total, werr
+			}
+		}
+		if err == io.EOF {
+			return total, nil
+		}
+		if err != nil {
+			return total, err
+		}
+	}
+}
 
 // rleCompressor never compresses anything the checks look at (responses are
 // small); it writes a run of zero bytes for whatever it is given.
